@@ -159,10 +159,13 @@ def _analyze(template: Template, *, include_partials: bool) -> TemplateAnalysis:
     # Names of partial templates that have already been analyzed.
     seen: set[str] = set()
 
-    def _visit(node: Node, template_name: str, scope: _StaticScope) -> None:
-        if template_name:
-            seen.add(template_name)
+    # The name partial tags load the root template by. `template.name` is only the
+    # last component of that name, and can be the name of a different template.
+    root_name = str(template.path) if template.path is not None else template.name
+    if root_name:
+        seen.add(root_name)
 
+    def _visit(node: Node, template_name: str, scope: _StaticScope) -> None:
         # Update tags from node.token
         if not isinstance(
             node, (BlockNode, ConditionalBlockNode, MultiExpressionBlockNode)
@@ -223,7 +226,7 @@ def _analyze(template: Template, *, include_partials: bool) -> TemplateAnalysis:
             scope.pop()
 
     for node in template.nodes:
-        _visit(node, template.name, root_scope)
+        _visit(node, root_name, root_scope)
 
     return TemplateAnalysis(
         variables=variables.as_dict(),
@@ -251,10 +254,13 @@ async def _analyze_async(
     # Names of partial templates that have already been analyzed.
     seen: set[str] = set()
 
-    async def _visit(node: Node, template_name: str, scope: _StaticScope) -> None:
-        if template_name:
-            seen.add(template_name)
+    # The name partial tags load the root template by. `template.name` is only the
+    # last component of that name, and can be the name of a different template.
+    root_name = str(template.path) if template.path is not None else template.name
+    if root_name:
+        seen.add(root_name)
 
+    async def _visit(node: Node, template_name: str, scope: _StaticScope) -> None:
         # Update tags from node.token
         if not isinstance(
             node, (BlockNode, ConditionalBlockNode, MultiExpressionBlockNode)
@@ -315,7 +321,7 @@ async def _analyze_async(
             scope.pop()
 
     for node in template.nodes:
-        await _visit(node, template.name, root_scope)
+        await _visit(node, root_name, root_scope)
 
     return TemplateAnalysis(
         variables=variables.as_dict(),
